@@ -511,6 +511,12 @@ def replay_version_model(rep, wd, quick):
     rep.cov["model_queries_compared"] = nq
     rep.cov["model_calls_compared"] = ncall
     rep.cov["model_behaviours_cut_at_open_finding"] = nknown
+    kinds = {}
+    for b in behs:
+        for st in b[1:]:
+            k = st["state"]["last"]["ev"]
+            kinds[k] = kinds.get(k, 0) + 1
+    rep.cov["model_events_replayed"] = kinds
     rep.cov["nonconformances"] = rep.cov.get("nonconformances", 0) + nonconf
     if nonconf:
         print("NONCONFORMANCE: %d of %d replayed Version.tla behaviours diverge from the model (informational)" % (nonconf, len(behs)))
